@@ -27,6 +27,9 @@ _BSP = 'ABS:/venv/lib/python3.12/site-packages/bitsets/'
 BI, BB, BM, BS, BC = _BSP + 'integers.py', _BSP + 'bases.py', _BSP + 'meta.py', _BSP + 'series.py', _BSP + 'combos.py'
 DF = 'concepts/definitions.py'
 FCX, FTB, FWK = 'concepts/formats/cxt.py', 'concepts/formats/table.py', 'concepts/formats/wiki_table.py'
+FCSV = 'concepts/formats/csv_context.py'
+FPL = 'concepts/formats/python_literal.py'
+_DUMPF = ['formats.python_literal.dump_file.fresh', 'formats.python_literal.dump_file.serialized']
 
 MUTANTS = [
     # (file, old, new, units, 'breaks'|'equivalent')
@@ -361,6 +364,52 @@ MUTANTS = [
     (FWK, "    write('!')\n", "", ['formats.wiki_table.dump_file'], 'breaks'),
     (FWK, "    wp = list(map(len, properties))", "    wp = [len(p) for p in properties]", ['formats.wiki_table.dump_file'], 'equivalent'),
     (FWK, "(('X' if b else '').ljust(w) for w, b in zip(wp, intent))", "[('X' if b else '').ljust(w) for w, b in zip(wp, intent)]", ['formats.wiki_table.dump_file'], 'equivalent'),
+    # row-level formats (contracts/formats_csv.py)
+    (FCSV, "        header = [object_header] + list(properties)", "        header = list(properties)", ['formats.csv.dumpf'], 'breaks'),
+    (FCSV, "        symbool = cls.symbols[bools_as_int].__getitem__", "        symbool = cls.symbols[not bools_as_int].__getitem__", ['formats.csv.dumpf'], 'breaks'),
+    (FCSV, "SYMBOLS = {False: {False: '', True: 'X'},", "SYMBOLS = {False: {False: '', True: 'x'},", ['formats.csv.dumpf', 'formats.csv.loadf'], 'breaks'),
+    (FCSV, "tools.write_csv_file(file, rows, header=header, dialect=dialect)", "tools.write_csv_file(file, rows, header=header, dialect=cls.dialect)", ['formats.csv.dumpf'], 'breaks'),
+    (FCSV, "        rows = ([o] + list(map(symbool, bs))", "        rows = ([o, o] + list(map(symbool, bs))", ['formats.csv.dumpf'], 'breaks'),
+    (FCSV, "        symbool = cls.symbols[bools_as_int].__getitem__", "        symbool = SYMBOLS[bools_as_int].__getitem__", ['formats.csv.dumpf'], 'equivalent'),
+    (FCSV, "for as_int, values in cls.values.items():", "for as_int, values in reversed(list(cls.values.items())):", ['formats.csv.loadf'], 'breaks'),
+    (FCSV, "            rows = itertools.chain([first_row], reader)", "            rows = reader", ['formats.csv.loadf'], 'breaks'),
+    (FCSV, "            bools.append(tuple(map(get_value, symbols)))", "            bools.append(tuple(map(get_value, reversed(symbols))))", ['formats.csv.loadf'], 'breaks'),
+    (FCSV, "        object_header, *properties = next(reader)", "        *properties, object_header = next(reader)", ['formats.csv.loadf'], 'breaks'),
+    (FCSV, "        objects, bools = ([] for _ in range(2))", "        objects = bools = []", ['formats.csv.loadf'], 'breaks'),
+    (FCSV, "        objects, bools = ([] for _ in range(2))", "        objects, bools = [], []", ['formats.csv.loadf'], 'equivalent'),
+    (FCSV, "        get_value = cls.values[bools_as_int].__getitem__", "        get_value = cls.values[not bools_as_int].__getitem__", ['formats.csv.loadf'], 'breaks'),
+    (FCSV, "                except KeyError:\n                    pass\n                else:\n                    break",
+           "                except KeyError:\n                    break\n                else:\n                    break", ['formats.csv.loadf'], 'breaks'),
+    (FCSV, "VALUES = {as_int: {str(s): v for v, s in symbols.items()}", "VALUES = {as_int: {str(s): not v for v, s in symbols.items()}", ['formats.csv.loadf'], 'breaks'),
+    (FCSV, "        reader = csv.reader(file, dialect=dialect)", "        reader = csv.reader(file)", ['formats.csv.loadf'], 'breaks'),
+    (FCSV, "            bools_as_int = as_int\n", "            bools_as_int = False\n", ['formats.csv.loadf'], 'breaks'),
+    (FCSV, "        if dialect is None:\n            dialect = cls.dialect\n\n        reader = csv.reader(file, dialect=dialect)",
+           "        reader = csv.reader(file, dialect=cls.dialect if dialect is None else dialect)", ['formats.csv.loadf'], 'equivalent'),
+    (FPL, "            row[i] = True", "            row[i] = False", ['formats.python_literal.load_file'], 'breaks'),
+    (FPL, "            row[i] = True", "            row[i - 1] = True", ['formats.python_literal.load_file'], 'breaks'),
+    (FPL, "        for i in true_indexes:", "        for i in true_indexes[1:]:", ['formats.python_literal.load_file'], 'breaks'),
+    (FPL, "zip(bools, args['context'])", "zip(bools, args['context'][1:])", ['formats.python_literal.load_file'], 'breaks'),
+    (FPL, "[[False for _ in args['properties']]\n             for _ in args['objects']]", "[[False for _ in args['objects']]\n             for _ in args['properties']]",
+          ['formats.python_literal.load_file'], 'breaks'),
+    (FPL, "[False for _ in args['properties']]", "[True for _ in args['properties']]", ['formats.python_literal.load_file'], 'breaks'),
+    (FPL, "    return SerializedArgs(objects, properties, bools, serialized=args)", "    return SerializedArgs(properties, objects, bools, serialized=args)",
+          ['formats.python_literal.load_file'], 'breaks'),
+    (FPL, "[[False for _ in args['properties']]\n             for _ in args['objects']]", "[[False for _ in properties]\n             for _ in objects]",
+          ['formats.python_literal.load_file'], 'equivalent'),
+    (FPL, "tuple(i for i, b in enumerate(row) if b)", "tuple(i for i, b in enumerate(row) if not b)", ['formats.python_literal.dump_file.fresh'], 'breaks'),
+    (FPL, "tuple(i for i, b in enumerate(row) if b)", "tuple(i + 1 for i, b in enumerate(row) if b)", ['formats.python_literal.dump_file.fresh'], 'breaks'),
+    (FPL, "               'properties': properties,", "               'properties': objects,", ['formats.python_literal.dump_file.fresh'], 'breaks'),
+    (FPL, "        for key in ('objects', 'properties'):", "        for key in ('properties', 'objects'):", _DUMPF, 'breaks'),
+    (FPL, "        yield '}'", "        pass", _DUMPF, 'breaks'),
+    (FPL, "(('lattice',) if 'lattice' in doc else ())", "('lattice',)", _DUMPF, 'breaks'),
+    (FPL, "        write(line)", "        write(line)\n        write(line)", _DUMPF, 'breaks'),
+    (FPL, "yield from itersection(key, lines, value_list=True)", "yield from itersection(key, lines)", _DUMPF, 'breaks'),
+    (FPL, "        yield from lines\n", "        yield from lines\n        yield from lines\n", _DUMPF, 'breaks'),
+    (FPL, "            line = ', '.join(map(repr, doc[key]))", "            line = ', '.join(map(repr, doc['objects']))", _DUMPF, 'breaks'),
+    (FPL, "    write = functools.partial(print, file=file)", "    write = print", _DUMPF, 'breaks'),
+    (FPL, "        keys = ('objects', 'properties', 'context')", "        keys = ('objects', 'properties', 'context', 'lattice')", ['formats.python_literal.dump_file.serialized'], 'breaks'),
+    (FPL, "    write = functools.partial(print, file=file)\n    for line in iterlines(doc):\n        write(line)",
+          "    for line in iterlines(doc):\n        print(line, file=file)", _DUMPF, 'equivalent'),
 ]
 
 
@@ -397,7 +446,7 @@ def run(only_units=None, verbose=True, procs=None):
         meta.append((relpath, old, new, expect))
     procs = procs or min(len(jobs), os.cpu_count() or 4) or 1
     if procs > 1 and len(jobs) > 1:
-        with mp.get_context('fork').Pool(procs) as pool:
+        with mp.get_context('fork').Pool(procs, maxtasksperchild=1) as pool:      # a fresh process per mutant (see run.run_units)
             losts = pool.map(_one, jobs, chunksize=1)
     else:
         losts = [_one(j) for j in jobs]
